@@ -19,10 +19,10 @@ import (
 func TestC14(t *testing.T) {
 	rec := vk.New("C14", "histories")
 	defer rec.Finish(t)
-	maxLen := vk.N(5, 7)
+	maxLen := vk.N(4, 7)
 	rec.Rule(fmt.Sprintf("exhaustive: every sequence over {ban, unban, use} of length 1..%d on a real broker (requests through emitter/keyban/, uses = SUBSCRIBE and QoS-1 PUBLISH with the key), followed by a final use, "+
 		"a restart of the broker on the same cluster directory and another use (the set of histories is prefix-closed, so this is a restart after every prefix of every history); the gossip payload of every ban/unban is captured at the sender and merged "+
-		"into two other brokers (one that uses the key at every step, one that looks it up only at the end); non-trivial = histories with >=1 ban; distinct = the operation string", maxLen))
+		"into two other brokers (one that uses the key at every step, one that looks it up only at the end); a fourth broker receives the union the gossip sender would have coalesced on a busy link, a fifth joins late and receives the complete state; non-trivial = histories with >=1 ban; distinct = the operation string", maxLen))
 	rec.Exhaustive(true)
 	var hist []string
 	var gen func(cur string)
@@ -109,10 +109,16 @@ func runC14(rec *vk.Rec, hi int, h string) {
 	defer os.RemoveAll(dir)
 	var mu sync.Mutex
 	var payloads [][]byte
+	var pending mesh.GossipData // what a busy link would hold: pending = pending.Merge(new), as the gossip sender does
 	g := &NullGossip{OnBcast: func(d mesh.GossipData) {
 		mu.Lock()
 		for _, b := range d.Encode() {
 			payloads = append(payloads, append([]byte(nil), b...))
+		}
+		if pending == nil {
+			pending = d
+		} else {
+			pending = pending.Merge(d)
 		}
 		mu.Unlock()
 	}}
@@ -136,6 +142,25 @@ func runC14(rec *vk.Rec, hi int, h string) {
 		rec.Inconclusive(err.Error())
 		return
 	}
+	s2c, err := c14Side1(Opts{License: lic, Node: 4}, "broker4-receives-the-coalesced-payload-at-the-end")
+	if err != nil {
+		s1.close()
+		s2a.close()
+		s2b.close()
+		rec.Inconclusive(err.Error())
+		return
+	}
+	s2d, err := c14Side1(Opts{License: lic, Node: 5}, "broker5-joins-late-and-receives-the-full-state")
+	if err != nil {
+		s1.close()
+		s2a.close()
+		s2b.close()
+		s2c.close()
+		rec.Inconclusive(err.Error())
+		return
+	}
+	defer s2c.close()
+	defer s2d.close()
 	closed1 := false
 	defer func() {
 		if !closed1 {
@@ -216,6 +241,37 @@ func runC14(rec *vk.Rec, hi int, h string) {
 	if !violated {
 		checkUse(s2b, "other-broker-first-lookup-after-merge")
 	}
+	// a broker whose link was busy: it receives one payload, the union of everything queued for it
+	if !violated {
+		mu.Lock()
+		pd := pending
+		mu.Unlock()
+		if pd != nil {
+			for _, buf := range pd.Encode() {
+				if _, err := s2c.b.Svc.VerifSwarm().OnGossipBroadcast(src, buf); err != nil {
+					fail("gossip-merge-error", err.Error())
+				}
+			}
+			rec.Inc("coalesced_payloads_delivered")
+		}
+		if !violated {
+			checkUse(s2c, "other-broker-after-coalesced-payload")
+		}
+	}
+	// a broker that joins late: it receives broker 1's complete state
+	if !violated {
+		if full := s1.b.Svc.VerifSwarm().Gossip(); full != nil {
+			for _, buf := range full.Encode() {
+				if _, err := s2d.b.Svc.VerifSwarm().OnGossip(buf); err != nil {
+					fail("gossip-merge-error", err.Error())
+				}
+			}
+			rec.Inc("full_states_delivered")
+		}
+		if !violated {
+			checkUse(s2d, "other-broker-after-full-state")
+		}
+	}
 	// restart on the same directory
 	if !violated {
 		s1.close()
@@ -233,5 +289,83 @@ func runC14(rec *vk.Rec, hi int, h string) {
 	rec.Case(vk.Hash(h), strings.Contains(h, "B"))
 	if rec.WantSample() && strings.Contains(h, "B") && len(h) >= 3 {
 		rec.Sample(map[string]interface{}{"history": h, "trace": trace})
+	}
+}
+
+// ---- concurrent uses while the ban is toggled ------------------------------------------------
+
+func TestC14Conc(t *testing.T) {
+	rec := vk.New("C14", "conc")
+	defer rec.Finish(t)
+	rec.Rule("case = one broker; an administrator connection toggles the ban of a key 150-300 times and, after every acknowledgement, uses the key on its own connection (the answer must reflect the toggle just acknowledged) while 6-10 other connections keep presenting the same key concurrently; " +
+		"non-trivial = every case; distinct = (toggles, users, case)")
+	n := vk.N(8, 200)
+	for ci := 0; ci < n; ci++ {
+		if !vk.Mine(ci) {
+			continue
+		}
+		r := vk.NewRand(vk.Seed(), "C14conc", ci)
+		s1, err := c14Side1(Opts{}, "broker")
+		if err != nil {
+			rec.Inconclusive(err.Error())
+			continue
+		}
+		key := s1.b.MustKey("#/", Perms("rw"))
+		nu := r.Range(6, 10)
+		stop := make(chan struct{})
+		var wg sync.WaitGroup
+		for u := 0; u < nu; u++ {
+			c := s1.b.Attach(fmt.Sprintf("u%d", u), nil)
+			if rc, err := c.Connect(c.Name, "", nil); err != nil || rc != 0 {
+				continue
+			}
+			wg.Add(1)
+			go func(c *Client) {
+				defer wg.Done()
+				defer c.Abort()
+				for {
+					select {
+					case <-stop:
+						return
+					default:
+					}
+					if _, err := c.Publish(key+"/conc/x/", []byte("u"), false); err != nil {
+						return
+					}
+					c.Take()
+				}
+			}(c)
+		}
+		toggles := r.Range(150, 300)
+		banned := false
+		for i := 0; i < toggles; i++ {
+			banned = !banned
+			rep, err := s1.admin.Request("keyban", map[string]interface{}{"secret": s1.b.Master, "target": key, "banned": banned})
+			if err != nil || rep.Status != 200 {
+				rec.Inconclusive(fmt.Sprintf("keyban: %v", err))
+				break
+			}
+			subOK, pubOK, err := s1.use(key, fmt.Sprintf("conc-%d", i))
+			if err != nil {
+				rec.Inconclusive("use: " + err.Error())
+				break
+			}
+			rec.Inc("uses_right_after_a_toggle")
+			if banned && (subOK || pubOK) {
+				rec.Violation(ci, "conc/banned-key-accepted", fmt.Sprintf("toggle %d of %d (%d concurrent users): the ban was acknowledged but the next use was accepted (subscribe=%v publish=%v)", i, toggles, nu, subOK, pubOK), nil)
+				break
+			}
+			if !banned && (!subOK || !pubOK) {
+				rec.Violation(ci, "conc/unbanned-key-refused", fmt.Sprintf("toggle %d of %d (%d concurrent users): the unban was acknowledged but the next use was refused (subscribe=%v publish=%v)", i, toggles, nu, subOK, pubOK), nil)
+				break
+			}
+		}
+		close(stop)
+		wg.Wait()
+		rec.Case(vk.Hash("conc", toggles, nu, ci), true)
+		if rec.WantSample() {
+			rec.Sample(map[string]interface{}{"case": ci, "toggles": toggles, "concurrent_users": nu})
+		}
+		s1.close()
 	}
 }
